@@ -136,7 +136,7 @@ def run(pid, tier, seed, replay=None):
         # the action properties are checked on the 4- and 5-referent configurations; the large ones (6 referents, and
         # the rootless one, whose orphan can be destroyed and moved) check the invariants
         with_props = PROPS if (quick or (MC[name]["MaxRef"] <= 5 and name != "rootless5")) else ""
-        r = model_check(name, with_props, workers)
+        r = model_check(name, with_props, workers, timeout=3000 if quick else 14400)
         v = tlc_violation(r)
         if v:
             rep.violation("spec|%s|%s" % (name, v.split(" is violated")[0]), {"config": name, "tlc": r["out"][-6000:]},
